@@ -171,3 +171,34 @@ pub fn workspace_checkpoint_hook(
 pub fn task_resolve_cwd(root: &std::path::Path, raw: &str) -> Result<PathBuf, String> {
     crate::tasks::verif_resolve_cwd(root, raw)
 }
+
+/// Spawns a background shell task through the real `TaskEngine` of `engine` (the engine shares its
+/// workspace lock with the sessions); returns the task id (property C11).
+pub fn spawn_shell_task(
+    engine: &crate::SessionEngine,
+    tool: &str,
+    args: serde_json::Value,
+    pty: bool,
+) -> String {
+    let payload = crate::tasks::TaskSpawnPayload {
+        tool: tool.to_string(),
+        args,
+        title: None,
+        execution_mode: Some(if pty {
+            crate::tasks::ApiToolTaskExecutionMode::Pty
+        } else {
+            crate::tasks::ApiToolTaskExecutionMode::Pipes
+        }),
+        origin_session_id: None,
+    };
+    let tasks = engine.tasks();
+    let handle = tasks.create_task(&payload);
+    let task_id = handle.task_id.clone();
+    tasks.spawn_task(handle, payload);
+    task_id
+}
+
+/// Probe: the workspace lock of `engine` is free right now (property C11).
+pub fn workspace_lock_free(engine: &crate::SessionEngine) -> bool {
+    engine.verif_workspace_lock().verif_free()
+}
